@@ -212,6 +212,13 @@ func siteMatches(p *Program, pat string, in ssa.Instruction) (string, bool) {
 			return "call through " + f[1], true
 		}
 		return "", false
+	case "recv":
+		// `recv PATTERN`: a receive from a channel whose access path matches
+		u, ok := in.(*ssa.UnOp)
+		if !ok || u.Op != token.ARROW || !pathMatches(valuePath(u.X), f[1]) {
+			return "", false
+		}
+		return "receive from " + valuePath(u.X), true
 	case "binop":
 		// `binop PATTERN`: an arithmetic / comparison instruction whose access path matches (phi:count+1)
 		bo, ok := in.(*ssa.BinOp)
